@@ -133,6 +133,28 @@ def check_serde_filter(S, P, r5):
             r5.bad(V(r5.id, "StructParser::should_include", "predicate:%s:%s" % (sorted(set(lits)), sorted(set(ops))), "the serde filter tests %s combined with %s" % (sorted(set(lits)), sorted(set(ops)))))
     if fn is not None:
         check_flag_accumulation(fn, r5)
+    # ... asked of every attribute of the item (an item may carry several #[derive(..)] attributes): the per-attribute test is repeated over the whole
+    # attribute list, not applied to the first `derive` found
+    PARTIAL_SEL = {"find", "find_map", "first", "last", "nth", "take", "skip", "position", "rposition", "get", "split_first", "split_last", "next_back", "peekable"}
+    for nm in ("should_include_struct", "should_include_enum"):
+        for f in P.find("StructParser::" + nm):
+            sites = P.find_call_sites(f.id, lambda c: short_path(c.best) == "StructParser::should_include")
+            if not sites:
+                # the per-attribute test may have been merged into this function: then its own `derive` test is the site
+                sites = P.find_call_sites(f.id, lambda c: c.name == "is_ident" and (c.arg_lit(1, P) if hasattr(c, "arg_lit") else None) == "derive")
+            if not sites:
+                r5.bad(V(r5.id, f.id, "filter-shape", "%s neither calls the per-attribute test nor looks for `derive` itself" % nm))
+                continue
+            for (g, c) in sites[:1]:
+                srcs = P.iteration_sources(f.id, g, c)
+                sel = sorted({c2.name for k2 in P.family(f.id) if "{promoted" not in k2 for c2 in P.fns[k2].calls
+                              if c2.bb in P.fns[k2].reach_blocks and c2.name in PARTIAL_SEL and ("Attribute" in " ".join(c2.generics + [c2.self_ty or "", c2.path]))})
+                if srcs and any("attrs" in x for x in srcs) and not sel:
+                    r5.ok("%s: the derive test is repeated over every attribute of the item" % nm)
+                else:
+                    r5.bad(V(r5.id, f.id, "derive-test-not-over-all-attributes:%s" % (",".join(sel) or "no-iteration"),
+                             "%s applies the serde-derive test to %s instead of every attribute: `#[derive(Debug)] #[derive(Serialize)]` is not recognised as a serde type"
+                             % (nm, ("the attribute picked by " + ", ".join(sel)) if sel else "something that is not an iteration over the item's attributes (%s)" % srcs), c.file, c.line))
     for nm in ("index_type_definitions", "extract_type_from_ast"):
         fs = P.find("CommandAnalyzer::" + nm)
         for f in fs:
